@@ -358,7 +358,9 @@ def c18_3(ctx):
     lp = ctx.fold.class_const('bespokeasm.assembler.line_object.label_line.LabelLine', 'PATTERN_LABEL').pattern
     ok = ok and lp.startswith('^\\s*((\\.?\\w+):)')
     ctx.check(ok, 'surface:label-consumes-only-its-name', lf.site(), 'a label in front of a statement consumes only its `name:` text; the statement is parsed next', lp)
-    order = [unparse(c.func) for c in sorted([c for c in ast.walk(wl[0]) if isinstance(c, ast.Call) and unparse(c.func).endswith('.factory')], key=lambda c: c.lineno)] if wl else []
+    from engine.helpers import source_order
+    _so = source_order(wl[0]) if wl else {}
+    order = [unparse(c.func) for c in sorted([c for c in ast.walk(wl[0]) if isinstance(c, ast.Call) and unparse(c.func).endswith('.factory')], key=lambda c: (c.lineno, _so[id(c)]))] if wl else []
     ctx.check(order[:1] == ['LabelLine.factory'], 'surface:label-tried-first', pl.site(), 'a label is looked for before any other statement kind', str(order))
     # a zone directive takes effect for the rest of its own line too (as it would on the following lines)
     same_line_zone(ctx)
